@@ -241,6 +241,9 @@ func (u *Unit) instantiateLemmas(asserts []string) []string {
 			if strings.HasPrefix(l.Label, "guide.") && !guideMode {
 				continue
 			}
+			if i := strings.Index(l.Label, ":"); i > 0 && !u.lemmaGroup(l.Label[:i]) {
+				continue
+			}
 			// cross product over the patterns
 			var rec func(i int, names map[string]Term)
 			count := 0
@@ -511,4 +514,21 @@ func (u *Unit) lemmaInstance(l *Lemma, names map[string]Term, dummy *State) (str
 		pairs = append(pairs, "@@"+n+"@@", t.S)
 	}
 	return strings.NewReplacer(pairs...).Replace(tmpl), nil
+}
+
+// lemmaGroup: lemmas labelled GROUP:name are used only by theorems and by functions whose contract opts in
+// (opt lemmas=GROUP,...). Keeps expensive lemma families out of unrelated queries.
+func (u *Unit) lemmaGroup(g string) bool {
+	if u.fn == nil {
+		return true
+	}
+	if u.fc == nil {
+		return false
+	}
+	for _, x := range strings.Split(u.fc.Opts["lemmas"], ",") {
+		if strings.TrimSpace(x) == g {
+			return true
+		}
+	}
+	return false
 }
